@@ -181,6 +181,7 @@ let dump_reader (oc : out_channel) (r : reader) (qs : (string * string) list) (i
     ids
 
 let write_file (ss : (n * istream) list) : (reader option, string) result =
-  match add_streams gcap new_writer ss with
+  (* the writer with the explicit pop of the undo path (IndexFormatPop.v; proved equal to add_streams) *)
+  match add_streams_pop gcap new_writer ss with
   | None -> Error "addstream-refused"
   | Some w -> ( match finalize_reader w with None -> Error "finalize-error" | Some r -> Ok (Some r))
